@@ -48,6 +48,13 @@ def base_form(rng):
         ln = next(iter(f.choices))
         f.survey.append(Row("group", "begin group", "tl_grp", {"label": "TL", "appearance": "table-list"},
                             [Row("q", f"select_one {ln}", "tl_a", {"label": "a"}), Row("q", f"select_one {ln}", "tl_b", {"label": "b"})]))
+    if rng.random() < 0.25:
+        f.survey.append(Row("q", rng.choice(["select_one_from_file cities.csv", "select_multiple_from_file zones.xml"]), "from_file_q",
+                            {"label": "ff", "parameters": rng.choice(["value=code label=nm", "value=v1", "label=l1"])}))
+    if rng.random() < 0.2:
+        f.settings["instance_id"] = rng.choice(["uid", "myid"])
+    if rng.random() < 0.2 and f.entities is None:
+        f.extra_sheets[rng.choice(["entities", "settings"]) if not f.settings else "entities"] = (["list_name", "label"], [])  # an optional sheet with a header row only
     # truth values on group / repeat rows too (read-only group, a repeat switched off)
     for r, _ in f.walk():
         if r.is_section() and rng.random() < 0.3:
